@@ -484,7 +484,11 @@ def run(ctx):
         ir0 = gen.build()
         if no % 2:
             ms.add_aux(gen, gtirb, rng, ir0)
-        raw = ms.save(ir0)
+        try:
+            raw = ms.save(ir0)
+        except (Exception, core.ImplTimeout):   # noqa (a C01 matter)
+            ctx.count("generated-ir-not-saveable")
+            continue
         if no % 3 != 2:
             try:
                 raw = shuffled_file(gtirb, rng, raw)
@@ -496,7 +500,14 @@ def run(ctx):
         if not ctx.thorough() and len(perts) > 60:
             perts = stratified(rng, perts, 60)
         for name, fn in perts:
-            ir1 = ms.load(gtirb, raw)
+            try:
+                ir1 = ms.load(gtirb, raw)
+            except (Exception, core.ImplTimeout) as e:   # noqa
+                ctx.report({"kind": "copy-not-loadable"},
+                           {"file_hex": raw.hex()[:6000]},
+                           "the save/load copy of a generated IR could not "
+                           "be loaded: %s" % type(e).__name__)
+                break
             try:
                 fn(ir1)
             except Exception as e:   # noqa
